@@ -68,20 +68,27 @@ func (m *mrtWriter) dumpTable() []*mrt.MRTMessage {
 	peermap := make(map[netip.Addr]dumpPeer)
 
 	idx := func(p *table.Path) uint16 {
-		if p, ok := peermap[p.GetSource().Address]; ok {
-			return p.index
+		// Locally generated routes have no source address (the zero
+		// netip.Addr, see table.Path.IsLocal); they all share one dummy
+		// Peer record keyed by 0.0.0.0.
+		key := p.GetSource().Address
+		if p.IsLocal() {
+			key = netip.IPv4Unspecified()
+		}
+		if dp, ok := peermap[key]; ok {
+			return dp.index
 		}
 		newIdx := uint16(len(peermap))
-		if p.GetSource().Address == netip.IPv4Unspecified() {
+		if p.IsLocal() {
 			// Adding dummy Peer record for locally generated routes
-			peermap[netip.IPv4Unspecified()] = dumpPeer{
+			peermap[key] = dumpPeer{
 				index: newIdx,
 				addr:  netip.IPv4Unspecified(),
 				id:    netip.IPv4Unspecified(),
 				as:    0,
 			}
 		} else {
-			peermap[p.GetSource().Address] = dumpPeer{
+			peermap[key] = dumpPeer{
 				index: newIdx,
 				addr:  p.GetSource().Address,
 				id:    p.GetSource().ID,
